@@ -358,6 +358,70 @@ def _drain(loop, conns, unit):
   return True
 
 
+_RECV_FAULTS = ("none", "data", "eof", "ECONNRESET", "ETIMEDOUT")
+_SEND_FAULTS = ("ok", "eagain", "EPIPE", "ECONNRESET")
+_ORDERS = ("same", "recv-first", "send-first")
+
+
+def _fault_round(loop, side, conns, roles, r, faults, skip, unit, out):
+  """The round in which the victim's socket misbehaves after the victim has (possibly) been made to owe a reply:
+  its next send fails / would block, and its peer hangs up, resets or keeps talking -- reported by select in
+  the same wake-up or in two successive ones.  -> still live?"""
+  import errno as _errno
+  v = conns["v"]
+  send, recv, order = faults.get("send", "ok"), faults.get("recv", "none"), faults.get("order", "same")
+  if send not in _SEND_FAULTS or recv not in _RECV_FAULTS or order not in _ORDERS:
+    raise HarnessError("unknown fault script %r" % (faults,))
+  if send != "ok":
+    # a fatal error repeats for as long as anybody tries; "would block" is a spurious wake-up and happens twice
+    v.sock.send_script = [send] * (2 if send == "eagain" else 64)
+  before_calls = len(v.sock.send_calls)
+  for role in roles:
+    c = conns[role]
+    if r < len(c.chunks) and (role, r) not in skip and not c.sock.closed:
+      c.sock.feed(c.chunks[r])
+  if side == "sw":
+    # input is processed, replies are queued but nothing is flushed yet
+    n = 0
+    loop.budget = (loop.budget[0], _limit(sum(len(c.sock.inbox) for c in conns.values())))
+    while loop.alive and loop.readable():
+      loop.step(loop.readable(), [])
+      n += 1
+      if n > 64:
+        return False
+    owed = len(v.handle.send_buf) > 0
+  else:
+    if not _drain(loop, conns, unit):
+      return False
+    owed = len(v.sock.send_calls) > before_calls
+  if owed:
+    out.label("fault:reply-owed")
+  # what the peer does next
+  if recv == "data":
+    if r + 1 < len(v.chunks) and not v.sock.closed:
+      v.sock.feed(v.chunks[r + 1])
+      skip.add(("v", r + 1))
+  elif recv == "eof":
+    v.sock.eof = True
+  elif recv != "none":
+    v.sock.recv_error = getattr(_errno, recv)
+  if side == "sw" and loop.alive:
+    loop.budget = (loop.budget[0], _limit(sum(len(c.sock.inbox) for c in conns.values())))
+    if order == "same":
+      loop.step(loop.readable(), loop.writable())
+    elif order == "recv-first":
+      loop.step(loop.readable(), [])
+      if loop.alive:
+        loop.step([x for x in loop.readable() if x is loop.loop.pinger], loop.writable())
+    else:
+      loop.step([x for x in loop.readable() if x is loop.loop.pinger], loop.writable())
+      if loop.alive:
+        loop.step(loop.readable(), [])
+  live = _drain(loop, conns, unit) if loop.alive else True
+  v.sock.send_script = []
+  return live
+
+
 def _chunks(stream, cuts):
   cuts = sorted(set(int(c) for c in cuts if 0 < int(c) < len(stream)))
   b = [0] + cuts + [len(stream)]
@@ -438,14 +502,22 @@ def run_case(case):
     sib_pending_at_bad = False
     unit = 2048 if side == "ctl" else 8192
     live = True
+    faults = case.get("faults")
+    skip = set()
+    if faults:
+      out.label("fault:recv=%s" % faults.get("recv", "none"), "fault:send=%s" % faults.get("send", "ok"),
+                "fault:order=%s" % faults.get("order", "same"))
     for r in range(rounds):
-      for role in roles:
-        c = conns[role]
-        if r < len(c.chunks) and not c.sock.closed:
-          c.sock.feed(c.chunks[r])
       if bad_round is not None and r == bad_round:
         sib_pending_at_bad = True          # siblings always have a later chunk and/or the probe outstanding
-      live = _drain(loop, conns, unit)
+      if faults and r == min(int(faults.get("round", 0)), len(v.chunks) - 1):
+        live = _fault_round(loop, side, conns, roles, r, faults, skip, unit, out)
+      else:
+        for role in roles:
+          c = conns[role]
+          if r < len(c.chunks) and (role, r) not in skip and not c.sock.closed:
+            c.sock.feed(c.chunks[r])
+        live = _drain(loop, conns, unit)
       if not loop.alive or not live:
         break
     if loop.alive and live and case.get("eof"):
@@ -463,7 +535,13 @@ def run_case(case):
                                                          for x in loop.readable()], pos, cause), side=side, cause=cause)
       return out
 
-    _judge(out, case, side, direction, loop, conns, roles, vstream, intact_expect, first_bad, sib_expect, probe)
+    must_until = first_bad
+    if faults:
+      # what arrives after the socket started to fail need not be delivered (the connection may be gone)
+      fr = min(int(faults.get("round", 0)), len(v.chunks) - 1)
+      fl = sum(len(ch) for ch in v.chunks[:fr + 1])
+      must_until = fl if must_until is None else min(must_until, fl)
+    _judge(out, case, side, direction, loop, conns, roles, vstream, intact_expect, must_until, sib_expect, probe)
     corrupted = first_bad is not None
     if corrupted:
       out.label("hdr:" + R.header_class(vstream, first_bad, direction))
@@ -472,6 +550,8 @@ def run_case(case):
         out.label("eof")
     after = corrupted and any(s > first_bad for s, _ in intact)
     out.nontrivial = bool(corrupted and after and (sib_pending_at_bad or bad_round is None))
+    if faults and "fault:reply-owed" in out.labels and (faults.get("send", "ok") != "ok" or faults.get("recv", "none") not in ("none", "data")):
+      out.nontrivial = True
     if corrupted and not after:
       out.label("corruption:last")
     if not corrupted:
@@ -652,7 +732,7 @@ def _judge(out, case, side, direction, loop, conns, roles, vstream, intact_expec
 
   # intact messages before the first corruption must have been delivered, unchanged
   for s, d, ex in intact_expect:
-    if first_bad is not None and s >= first_bad:
+    if first_bad is not None and s + len(d) > first_bad:
       break
     if ex is None:
       continue
@@ -801,6 +881,35 @@ def enum_trunc(tier):
              "vpos": idx % 2, "eof": True}
 
 
+def enum_faults(tier):
+  """Socket fault sequences on a victim that owes a reply: {peer: silent | more data | EOF | reset | timeout} x
+  {send: ok | EAGAIN | EPIPE | ECONNRESET} x {reported in the same wake-up | recv first | send first}."""
+  idx = 0
+  T = R
+  for side in ("sw", "ctl"):
+    if side == "sw":
+      owes = [("unknown-type", {"m": _spec(T.ECHO_REQUEST, 4), "ops": [{"op": "u8", "off": 1, "v": 200}]}),
+              ("echo", {"m": _spec(T.ECHO_REQUEST, 4)}), ("features", {"m": _spec(T.FEATURES_REQUEST)}),
+              ("bad-length", {"m": _spec(T.FLOW_MOD, 1), "ops": [{"op": "len", "v": 16}]})]
+      orders = _ORDERS
+    else:
+      owes = [("echo", {"m": _spec(T.ECHO_REQUEST, 4)}), ("hello", {"m": _spec(T.HELLO)})]
+      orders = ("same",)
+    for oname, item in owes:
+      for recv in _RECV_FAULTS:
+        for send in _SEND_FAULTS:
+          for order in orders:
+            for vfirst in (0, 1):
+              for nsib in (1, 2):
+                idx += 1
+                a, b = {"m": _valid(side, idx)}, {"m": _valid(side, idx + 3)}
+                victim = [a, dict(item), b]
+                cut = sum(len(victim_stream([x])[0]) for x in victim[:2])
+                sib = [[_valid(side, idx + 1 + 2 * j), _valid(side, idx + 4 + j), _valid(side, idx + 6 + j)] for j in range(nsib)]
+                yield {"side": side, "label": "fault:" + oname, "victim": victim, "sib": sib, "vpos": 0 if vfirst else nsib,
+                       "vcuts": [cut], "faults": {"round": 0, "recv": recv, "send": send, "order": order}}
+
+
 # --------------------------------------------------------------------------- Hypothesis
 
 @st.composite
@@ -870,6 +979,9 @@ def case_strategy(draw, tier):
       case["vcuts"] = sorted(set(draw(st.lists(st.integers(1, total - 1), min_size=0, max_size=4))))
   if draw(st.integers(0, 3)) == 0:
     case["eof"] = True
+  if draw(st.integers(0, 3)) == 0:
+    case["faults"] = {"round": draw(st.integers(0, 3)), "recv": draw(st.sampled_from(_RECV_FAULTS)),
+                      "send": draw(st.sampled_from(_SEND_FAULTS)), "order": draw(st.sampled_from(_ORDERS))}
   return case
 
 
@@ -880,6 +992,7 @@ def plan(tier):
     Enum("header", lambda: enum_header(tier), shards=16),
     Enum("embedded", lambda: enum_embedded(tier), shards=16),
     Enum("truncation", lambda: enum_trunc(tier), shards=16),
+    Enum("faults", lambda: enum_faults(tier), shards=16),
     Hyp("mutation", lambda: case_strategy(tier), examples=n, shards=16),
     # coverage-guided (atheris/libFuzzer) campaigns on both loops; skipped with a note if atheris is missing
     Custom("atheris", c10_ofstream.driver(3000 if tier == "quick" else 130000), shards=2 if tier == "quick" else 16),
